@@ -80,3 +80,34 @@ func VerifC04CodecDurable(v *verifrt.T) {
 	}
 	v.Observe("len", uint64(buf.Len()))
 }
+
+// VerifC04CodecLarge: the hop must not depend on the size of an entry: a connection event can
+// carry a last-will message of a full packet (64 KiB and more). One entry whose value is
+// just below, at and above 2^16 bytes (first and last bytes arbitrary), beside a small one,
+// through the real codec: both come back, byte for byte.
+func VerifC04CodecLarge(v *verifrt.T) {
+	sizes := []int{65535, 65536, 65537, 70000}
+	n := sizes[v.Choice(len(sizes), "size")]
+	big := make([]byte, n)
+	copy(big, v.Bytes(16, "times"))
+	big[n-1] = v.U8("last")
+	small := v.Bytes(16, "small")
+	s := NewVolatile()
+	s.data["big"] = Value(append([]byte(nil), big...))
+	s.data["small"] = Value(append([]byte(nil), small...))
+	var buf bytes.Buffer
+	e := binary.NewEncoder(&buf)
+	c := new(codecVolatile)
+	v.Assert(c.EncodeTo(e, reflect.ValueOf(*s)) == nil, "C04.codec.encodes")
+	var out Volatile
+	d := binary.NewDecoder(bytes.NewBuffer(buf.Bytes()))
+	err := c.DecodeTo(d, reflect.ValueOf(&out).Elem())
+	v.Reach("large-roundtrip")
+	v.Assert(err == nil, "C04.codec.large-entry-decodes")
+	if err == nil {
+		g, ok := out.data["big"]
+		v.Assert(ok && len(g) == n && g[n-1] == big[n-1] && bytes.Equal(g[:16], big[:16]), "C04.codec.large-entry-unchanged")
+		g2, ok2 := out.data["small"]
+		v.Assert(ok2 && bytes.Equal(g2, small), "C04.codec.neighbour-of-a-large-entry-unchanged")
+	}
+}
